@@ -10,7 +10,10 @@
  *   - logged (fs_log[0..fs_nlog)): name, path argument(s), flags/mode, result, errno, call site,
  *     and the value of fs_seq_hook() at the time of the call (harnesses return the length of the
  *     master's apply log, which orders libc calls against valid_read/valid_write applies);
- *   - optionally made to fail   (fs_fail_at  = index of the logged call, fs_fail_errno);
+ *   - optionally made to fail   (fs_fail_at  = index of the logged call, fs_fail_errno): the call is not made and the
+ *     caller sees the error; a failing fclose()/close()/closedir() still releases the stream, and for fclose() the
+ *     data that was still buffered is dropped (the file keeps only what earlier flushes wrote), as when the final
+ *     flush hits a full disk;
  *   - optionally a crash point  (fs_crash_at = index, fs_crash_after = 0 before / 1 after the call):
  *     fs_crash_hook() is called, default is _exit(0) without flushing stdio (what a killed
  *     process leaves behind).
